@@ -21,7 +21,7 @@ RULE = ('corpus (F6-F9 witnesses, empty-window witnesses) first; exhaustive box:
         'Feature sharing the Location objects of an own feature followed by rc(update_fts); a fresh object colliding on id and length; in-place windows; '
         'every step is compared with the model applied to the current value and the receiver is observed after every step; '
         'a FEATURE-LIST history stream (a small history language interpreted by the real objects and by run_C06f): lookups by type name '
-        '(seq[name], seq.sl(..)[name], BioBasket(objs)[name] / [:, name] / [i, name], fts.get(name | names), fts.select(name | names), indexing with a '
+        '(seq[name], seq.sl(..)[name], BioBasket(objs)[name] / [:, name] / [i, name], fts.get(name | names), fts.select(name | names), BioBasket(objs).fts.get / select, indexing with a '
         'Feature taken from the list) interleaved with in-place edits of the SAME FeatureList object (sort with keys None / len / tuples and reverse=, '
         'reverse, item assignment, swap, insert, append, extend / +=, pop / del, remove, clear, seq.add_fts, changing the type or the locations of a feature) and of '
         'the sequence (rc with / without features, basket rc, reverse, complement, item assignment, fts re-assigned) on 1-3 objects of equal length with '
@@ -68,7 +68,7 @@ ASSUMPTIONS = ['Python str restricted to ASCII; sequences over the 17-symbol IUP
 MODELLED_FUNCS = {
     'sugar/core/seq.py': ['BioSeq._getitem', 'BioSeq._slice_locs', 'BioSeq.rc', 'BioSeq.__getitem__', 'BioSeq.sl', 'BioSeq.__setitem__',
                           '_Sliceable_GetItem.__init__', '_Sliceable_GetItem.__getitem__',
-                          'BioBasket._getitem', 'BioBasket.__getitem__', 'BioBasket.sl', 'BioBasket.rc', 'BioSeq.add_fts',
+                          'BioBasket._getitem', 'BioBasket.__getitem__', 'BioBasket.sl', 'BioBasket.rc', 'BioBasket.fts', 'BioSeq.add_fts',
                           '_BioSeqStr.upper', '_BioSeqStr.lower', '_BioSeqStr.swapcase', '_BioSeqStr.replace', '_BioSeqStr.strip',
                           '_BioSeqStr.lstrip', '_BioSeqStr.rstrip'],
     'sugar/core/fts.py': ['FeatureList.slice', 'FeatureList.rc', 'FeatureList.get', 'FeatureList.select', 'FeatureList.sort',
@@ -461,6 +461,8 @@ def _fhist(rng):
             return {'obj': obj, 'op': 'select', 'name': name()}
         if r < 0.8:
             return {'obj': obj, 'op': 'selectany', 'names': names(), 'tuple': rng.random() < 0.5}
+        if r < 0.86:
+            return {'obj': obj, 'op': rng.choice(['allget', 'allget', 'allselect']), 'name': name()}
         form = rng.choice(['win', 'pairS', 'pairS', 'pairI'])
         bidx = {'k': form, 'win': {'k': 'type', 'name': name()}}
         if form == 'pairI':
@@ -1019,6 +1021,15 @@ def _do_fstep(objs, st):
         r = seq.fts.select(arg)
         assert isinstance(r, FeatureList) and all(any(x is ft for ft in seq.fts) for x in r), 'select() must return features of the list'
         return _canon_fts(r)
+    if op in ('allget', 'allselect'):
+        allfts = BioBasket(objs).fts
+        assert isinstance(allfts, FeatureList)
+        r = allfts.get(st['name']) if op == 'allget' else allfts.select(st['name'])
+        if r is None:
+            return None
+        for x in ([r] if op == 'allget' else r):
+            assert any(x is ft for o in objs for ft in o.fts), 'must return features of the sequences'
+        return _canon_fts([r])[0] if op == 'allget' else _canon_fts(r)
     if op == 'basket':
         ix = st['bidx']
         basket = BioBasket(objs)
@@ -1246,6 +1257,10 @@ def _fstep_term(st):
         t = '(FSelect %s)' % coq_bs(st['name'])
     elif op == 'selectany':
         t = '(FSelectAny %s)' % _names_term(st['names'])
+    elif op == 'allget':
+        t = '(FAllGet %s)' % coq_bs(st['name'])
+    elif op == 'allselect':
+        t = '(FAllSelect %s)' % coq_bs(st['name'])
     elif op == 'basket':
         t = '(FBasket %s %s %s %s %s)' % (_bidx_term(st['bidx']), coq_bool(st['u']), _optbs(st.get('splitter')),
                                           _optbs(st.get('filler')), _optbs(st.get('gap')))
@@ -1587,6 +1602,11 @@ def _spec_fhist(case, got):
             want = hits if op.startswith('select') else (hits[0] if hits else None)
             if val != want:
                 why = 'expected %r, got %r' % (want, val)
+        elif op in ('allget', 'allselect'):      # over the features of all objects, first object first
+            hits = [ft for s_ in states for ft in s_[1] if ft[0] is not None and ft[0].lower() == st['name'].lower()]
+            want = hits if op == 'allselect' else (hits[0] if hits else None)
+            if val != want:
+                why = 'expected %r, got %r' % (want, val)
         elif op == 'basket':
             bc = {'basket': [None] * len(states), 'bidx': st['bidx'], 'u': st['u'], 'gap': st.get('gap'),
                   'splitter': st.get('splitter'), 'filler': st.get('filler')}
@@ -1847,7 +1867,7 @@ def _valid_fstep(st, nobj):
         if k == 'swap':
             return 'i' in e and 'j' in e
         return k in ('reverse', 'clear')
-    if op in ('get', 'select'):
+    if op in ('get', 'select', 'allget', 'allselect'):
         return isinstance(st['name'], str)
     if op in ('getany', 'selectany'):
         return isinstance(st['names'], list) and all(isinstance(x, str) for x in st['names'])
@@ -1965,7 +1985,7 @@ def extra_checks(rng, tier, cov):
                              'sequence length <= %d' % (5 if tier == 'thorough' else 3))
 
 
-LEVEL_TEXT = ('Machine-checked Coq theorems (62, no axioms) about an executable model of BioSeq._getitem/_slice_locs/rc(update_fts) and '
+LEVEL_TEXT = ('Machine-checked Coq theorems (63, no axioms) about an executable model of BioSeq._getitem/_slice_locs/rc(update_fts) and '
               'FeatureList.slice/rc: extraction by Location/Feature/type name is the 5\'->3\' concatenation of the (reverse-complemented) pieces '
               'with filler/splitter (filler pads ascending plus-strand locations to the range length); under update_fts every surviving location '
               'addresses the same residues inside the window (int, every slice window, Location / single-location Feature windows on both strands), '
@@ -1980,7 +2000,7 @@ LEVEL_TEXT = ('Machine-checked Coq theorems (62, no axioms) about an executable 
               'features at column bounds, the Location path at the window\'s numbers, and the two agree exactly on aligned windows. '
               'Feature-list histories (round 7): FeatureList.sort is a stable sort - a permutation, ordered by the key (position = Feature.__lt__, or len), '
               'ties keeping their order in both directions, several keys = first key decides first (C06_sort_dir_spec, C06_fts_sort_keys); fts.get is '
-              'the head of fts.select, select the sub-list of matching features (C06_get_head_select); the type-name lookup after item assignment / '
+              'the head of fts.select, select the sub-list of matching features (C06_get_head_select); over all sequences of a basket the first sequence with a match answers (C06_get_all_objects); the type-name lookup after item assignment / '
               'delete / append / reverse / insert from the pieces of the list before the edit (C06_get_after_edit, C06_get_after_insert); after sort() it '
               'is the matching feature at the smallest position, the earliest of those before the sort (C06_get_after_sort); list_set / list_del / '
               'negative indices / remove (C06_list_edit_spec, C06_norm_idx_spec, C06_remove_first_spec); sort twice = once, seq.add_fts = stable position sort of old ++ new (C06_sort_idempotent_add_fts); which edits re-order / keep / change the number of features (C06_fedit_shape); the in-place str methods of the history language (C06_str_methods_spec); lookups leave no trace: the answers to any '
